@@ -30,11 +30,13 @@ def oraclize(qf: QlassF, element: Any, name="oracle"):
     """Transform a QlassF qf and an element to an oracle {f(x) = x == element}"""
     argt_name = type_repr(qf.args[0].ttype)
 
-    if qf.name == name:
-        qf.name = f"_{name}"
+    # on a name clash rename the copied definition, not the caller's qf
+    qf_name, qf_args, qf_ret, qf_exps = qf.to_logicfun()
+    if qf_name == name:
+        qf_name = f"_{name}"
 
-    fs = f"def {name}(v: {argt_name}) -> bool:\n   return {qf.name}(v) == {element}"
-    oracle = QlassF.from_function(fs, defs=[qf.to_logicfun()])
+    fs = f"def {name}(v: {argt_name}) -> bool:\n   return {qf_name}(v) == {element}"
+    oracle = QlassF.from_function(fs, defs=[(qf_name, qf_args, qf_ret, qf_exps)])
 
     if (
         len(oracle.expressions) == 1
